@@ -200,7 +200,7 @@ def insitu(spec, rng, ctx, until):
     con = Contracts(mode="record").install()
     try:
         i = 0
-        while time.time() < until:
+        while C.now() < until:
             alg = ("cg", "ckk", "snp", "rnp", "cg", "ckk")[i % 6]
             case = C.draw_partition_case(rng, alg=alg, classes=("small", "ties", "zeros", "equal", "perfect", "nearperfect", "onehuge", "powers"),
                                          pres=rng.choice(["list", "dict_str", "array"]))
@@ -235,7 +235,7 @@ def insitu(spec, rng, ctx, until):
 def run_shard(spec, rng, ctx):
     end = C.budget(spec)
     G = spec["grid_max"]
-    t0 = time.time()
+    t0 = C.now()
     span = end - t0
     # (a) grid, sharded
     idx = 0
@@ -246,7 +246,7 @@ def run_shard(spec, rng, ctx):
                 idx += 1
                 if idx % spec["nshards"] != spec["shard"]:
                     continue
-                if time.time() > t0 + span * 0.45 + 20:
+                if C.now() > t0 + span * 0.45 + 20:
                     complete = False
                     break
                 for name in LB_NAMES:
@@ -254,7 +254,7 @@ def run_shard(spec, rng, ctx):
     ctx.counters["lb_grid_complete_shards"] += int(complete)
     # (a') random, (b), (c)
     phase_end = t0 + span * 0.6
-    while time.time() < phase_end:
+    while C.now() < phase_end:
         k = rng.randint(1, 6)
         hi = rng.choice([3, 6, 10, 100, 10 ** 6, 2 ** 40, 2 ** 49])
         sums = sorted(rng.randint(0, hi) for _ in range(k))
